@@ -15,6 +15,8 @@ import (
 type c03Scenario struct {
 	Client     ClientOpts `json:"client"`
 	Pre        bool       `json:"previous_resumable_session"`
+	PrePlain   bool       `json:"previous_session_without_sm,omitempty"`
+	PreTLS     bool       `json:"previous_session_used_tls,omitempty"`
 	PreFailed  string     `json:"previous_failed_attempt,omitempty"` // a failed attempt on the same client before the measured one
 	Via        string     `json:"via"`                               // Connect | Resume
 	Server     NegScript  `json:"server"`
@@ -50,11 +52,15 @@ func runC03(e *Engine, g G, o RunOpt) RunInfo {
 		sc.Server.Bind = BindError
 	}
 	sc.Pre = sc.Client.Insecure && sc.Client.SM && g.Pct("pre", 40)
-	if !sc.Pre && sc.Client.Insecure && g.Pct("pre-failed", 25) {
+	// ... or a previous session without stream management
+	sc.PrePlain = !sc.Pre && sc.Client.Insecure && g.Pct("pre-plain", 20)
+	// the previous session was on TLS (the next server may not offer it)
+	sc.PreTLS = (sc.Pre || sc.PrePlain) && certAccepted(sc.Client, CertGood) && g.Bool("pre-tls")
+	if !sc.Pre && !sc.PrePlain && sc.Client.Insecure && g.Pct("pre-failed", 25) {
 		sc.PreFailed = []string{"bind-error", "auth-close", "enable-failed", "header3-close"}[g.N("pre-failed-kind", 4)]
 	}
 	sc.Via = "Connect"
-	if (sc.Pre || sc.PreFailed != "") && g.Bool("via") {
+	if (sc.Pre || sc.PrePlain || sc.PreFailed != "") && g.Bool("via") {
 		sc.Via = "Resume"
 	}
 	sc.Seg, sc.LatencyNs = netModes(g, e)
@@ -74,7 +80,11 @@ func runC03(e *Engine, g G, o RunOpt) RunInfo {
 		srv = NewServer(e, SimDomain)
 		srv.Certs = sharedCerts()
 		pre := DefaultNeg()
-		pre.SM = true
+		pre.SM = sc.Pre
+		if sc.PreTLS {
+			pre.StartTLS = TLSOffered
+			pre.Cert = CertGood
+		}
 		if sc.PreFailed != "" {
 			bad := DefaultNeg()
 			bad.SM = true
@@ -89,7 +99,7 @@ func runC03(e *Engine, g G, o RunOpt) RunInfo {
 				bad.Header3 = HdrClose
 			}
 			srv.Scripts = []NegScript{bad, sc.Server}
-		} else if sc.Pre {
+		} else if sc.Pre || sc.PrePlain {
 			srv.Scripts = []NegScript{pre, sc.Server}
 		} else {
 			srv.Scripts = []NegScript{sc.Server}
@@ -110,7 +120,10 @@ func runC03(e *Engine, g G, o RunOpt) RunInfo {
 			e.Sleep(time.Duration(sc.Client.ConnectTimeout+3) * time.Second)
 			e.Probe("c03.after_failed_attempt")
 		}
-		if sc.Pre {
+		if sc.Pre || sc.PrePlain {
+			if sc.PreTLS {
+				e.Probe("c03.previous_session_on_tls")
+			}
 			err, _ := e.Call("Connect(previous session)", w.Client.Connect)
 			if err != nil || len(srv.Conns) != 1 {
 				e.Probe("precondition_failed")
@@ -132,7 +145,7 @@ func runC03(e *Engine, g G, o RunOpt) RunInfo {
 		retSeq = len(e.Log)
 		tRet = e.Now()
 		stateAfter = xmpp.VerifClientState(w.Client)
-		if n := len(srv.Conns); n > 0 && ((!sc.Pre && sc.PreFailed == "") || n > 1) {
+		if n := len(srv.Conns); n > 0 && ((!sc.Pre && !sc.PrePlain && sc.PreFailed == "") || n > 1) {
 			conn = srv.Conns[n-1]
 			reached = len(conn.Recv) > 0
 		}
